@@ -25,11 +25,12 @@ import (
 //	zeno-verif c04 <scratch-dir> <trace> run2 - <n-seeds> <workers>
 func init() { scenarios["c04"] = c04 }
 
-func c04site(org *origin.Server, n int, big bool) []Seed {
+func c04site(org *origin.Server, n int, big bool, bigStatus int) []Seed {
 	var seeds []Seed
 	if big {
-		// a body that takes the WARC writer a while to digest, compress and write (incompressible, 64 MiB)
-		org.Route(0, "/c04/big.bin", origin.Resp{Status: 200, Headers: map[string]string{"Content-Type": "application/octet-stream"}, BodyGen: &origin.BodyGen{Kind: "binary", Size: 64 << 20, Seed: 4}})
+		// a body that takes the WARC writer a while to digest, compress and write (incompressible, 64 MiB);
+		// with status 503 and --max-retry 0 it is the answer of an attempt that exhausts the retries
+		org.Route(0, "/c04/big.bin", origin.Resp{Status: bigStatus, Headers: map[string]string{"Content-Type": "application/octet-stream"}, BodyGen: &origin.BodyGen{Kind: "binary", Size: 64 << 20, Seed: 4}})
 		seeds = append(seeds, Seed{ID: "seed-big", Value: org.URL(0, "/c04/big.bin")})
 	}
 	for k := 0; k < n; k++ {
@@ -71,15 +72,22 @@ func c04(args []string) error {
 		return err
 	}
 	bigFile := filepath.Join(dir, "big.flag")
-	big := strings.HasPrefix(mode, "big+")
-	mode = strings.TrimPrefix(mode, "big+")
-	if phase == "run1" && big {
-		os.WriteFile(bigFile, []byte("1"), 0644)
-	}
-	if _, err := os.Stat(bigFile); err == nil {
+	big, bigStatus := false, 200
+	if strings.HasPrefix(mode, "big+") || strings.HasPrefix(mode, "big503+") {
 		big = true
+		if strings.HasPrefix(mode, "big503+") {
+			bigStatus = 503
+		}
+		mode = mode[strings.Index(mode, "+")+1:]
 	}
-	seeds := c04site(run.org, n, big)
+	if phase == "run1" && big {
+		os.WriteFile(bigFile, []byte(strconv.Itoa(bigStatus)), 0644)
+	}
+	if b, err := os.ReadFile(bigFile); err == nil {
+		big = true
+		bigStatus, _ = strconv.Atoi(string(b))
+	}
+	seeds := c04site(run.org, n, big, bigStatus)
 	run.tr.Emit(map[string]any{"ev": "c04.phase", "phase": phase, "mode": mode, "n": n})
 	if phase == "run1" {
 		b, _ := json.Marshal(run.org.Hosts)
